@@ -1,14 +1,296 @@
 """C18 -- aligners preserve their inputs and are optimal for their own model.
 
-No obligation is discharged deductively in this round: Viterbi optimality is a maximum over exponentially many paths
-computed by numba float kernels (an inductive DP invariant over float arrays was not attempted, DESIGN.md section 7),
-and the pure-Python gap bookkeeping of app/align.py is covered by the bounded tier's projection contract.
+Proof tier (thin): ``align.traceback.gap_traceback`` -- the step that turns the dynamic program's path (a list of
+``[pos_in_seq1 | None, pos_in_seq2 | None]`` cells, any length n >= 1) into the gap layout of the two rows.  Contract,
+for each of the two sequences d and *every* path:
+
+  * the reported alignment length is n (so both rows have equal length);
+  * the segments returned for d are exactly the maximal runs of columns in which d consumes a residue: every
+    segment [s, e) satisfies 0 <= s < e <= n, all its columns consume, segments are in increasing order and
+    separated, and every consuming column lies in a segment (witnessed by the ghost map K);
+  * starts[d] / ends[d] are None iff no column consumes, else the position in the first consuming column and one
+    past the position in the last one.
+
+It follows that the gapped row of d has n columns and its non-gap columns are, in order, the path's cells for d: the
+degapped row is the part of the input the path walks through.  The loop invariant is quantified (columns, change
+points) and uses a ghost array K[c] = index of the last change point <= c; the ghost update is supplied by the
+contract and never read by the code.
+
+Viterbi optimality itself is a maximum over exponentially many paths computed by numba float kernels (not attempted,
+DESIGN.md section 7); IndelMap.from_aligned_segments / Aligned are used through their bounded contracts (C08, C03).
 Bounded tier (bounded/C18.py): brute-force optimality over all alignments of short sequences, score == independently
 recomputed path score, Hirschberg on/off, projection of multiple alignments onto (ref, s)."""
+from __future__ import annotations
+
+import z3
+
+from pyvc import extract
+from pyvc.harness import cover_thunk, smt_thunk
+from pyvc.loops import LoopHooks, SymSeq, loop_nodes
+from pyvc.objects import ClassHooks
+from pyvc.symex import Engine, OptV, SymList, Unsupported, is_sym
+
+FILE = "cogent3/align/traceback.py"
+I = z3.IntSort()
+B = z3.BoolSort()
+
+
+class PathSeq(SymSeq):
+    """aligned_positions: cell c is [p0 | None, p1 | None]"""
+
+    def __init__(self, n):
+        self.none = [z3.Const(f"none{d}", z3.ArraySort(I, B)) for d in (0, 1)]
+        self.val = [z3.Const(f"pos{d}", z3.ArraySort(I, I)) for d in (0, 1)]
+        self.arr, self.length, self.name = None, n, "aligned_positions"
+
+    def at(self, i):
+        i = i if is_sym(i) else z3.IntVal(i)
+        return [OptV(z3.Select(self.none[d], i), z3.Select(self.val[d], i)) for d in (0, 1)]
+
+    def cons(self, d, c):
+        return z3.Not(z3.Select(self.none[d], c))
+
+
+class TBHooks(LoopHooks, ClassHooks):
+    def __init__(self, funcs, specs):
+        ClassHooks.__init__(self, funcs, set())
+        self.loop_specs = specs
+        self.fn_nodes = funcs
+
+    def call_method(self, eng, obj, meth, args, kw, env):
+        if isinstance(obj, SymSeq) and meth == "__len__":
+            return obj.length
+        if isinstance(obj, SymSeq) and not isinstance(obj, PathSeq) and meth == "append":
+            v = args[0] if is_sym(args[0]) else z3.IntVal(args[0])
+            obj.arr = z3.Store(obj.arr, obj.length, v)
+            obj.length = obj.length + 1
+            return None
+        return super().call_method(eng, obj, meth, args, kw, env)
+
+    def subscript(self, eng, obj, idx):
+        store = isinstance(idx, tuple) and idx and isinstance(idx[0], str) and idx[0] == "store"
+        if isinstance(obj, SymSeq) and not isinstance(obj, PathSeq) and not store:
+            i = idx if is_sym(idx) else z3.IntVal(idx)
+            eng.require("noexcept:list-index-in-range", z3.And(0 <= i, i < obj.length))
+            return obj.at(i)
+        return super().subscript(eng, obj, idx)
+
+
+def _opt(v):
+    """(is-None, value) of a cell of starts / ends, before (concrete None) and after the havoc"""
+    if v is None:
+        return z3.BoolVal(True), z3.IntVal(0)
+    if isinstance(v, OptV):
+        return v.none, v.val
+    return z3.BoolVal(False), (v if is_sym(v) else z3.IntVal(v))
+
+
+def _bool(v):
+    return v if is_sym(v) else z3.BoolVal(bool(v))
+
+
+def run_gap_traceback(chk):
+    name = "gap_traceback"
+    fn = "align.traceback.gap_traceback"
+    node = extract.get(FILE, name)
+    funcs = {name: node}
+    outer = [l for l in loop_nodes(node) if isinstance(l.iter, __import__("ast").Call)]
+    if len(outer) != 1 or loop_nodes(node).index(outer[0]) != 0:
+        chk.undecided.append(f"{fn}: expected the loop over the path to be the first loop")
+        return
+    n = z3.Int("n")
+    path = PathSeq(n)
+    c, k1, k2 = z3.Ints("c k1 k2")
+    pre = [n >= 1]
+
+    def gv_of(env, d):
+        g = env["gap_vectors"][d]
+        if isinstance(g, SymSeq):
+            return g.arr, g.length
+        if isinstance(g, list) and not g:
+            return z3.K(I, z3.IntVal(0)), z3.IntVal(0)
+        raise Unsupported("shape of gap_vectors")
+
+    def last_consumed(d, arr, ln, cons_flag, j):
+        """column of the last consuming cell seen so far (meaningful when ln > 0)"""
+        return z3.If(cons_flag, j - 1, z3.Select(arr, ln - 1) - 1)
+
+    def inv(env, j):
+        parts = []
+        for d in (0, 1):
+            arr, ln = gv_of(env, d)
+            consuming = _bool(env["consuming"][d])
+            K = env["__K"][d]
+            s_none, s_val = _opt(env["starts"][d])
+            e_none, e_val = _opt(env["ends"][d])
+            parts += [
+                ln >= 0, consuming == (ln % 2 == 1),
+                z3.Implies(j > 0, consuming == path.cons(d, j - 1)),
+                z3.Implies(j == 0, ln == 0),
+                z3.ForAll([k1], z3.Implies(z3.And(0 <= k1, k1 < ln), z3.And(0 <= z3.Select(arr, k1), z3.Select(arr, k1) < j))),
+                z3.ForAll([k1, k2], z3.Implies(z3.And(0 <= k1, k1 < k2, k2 < ln), z3.Select(arr, k1) < z3.Select(arr, k2))),
+                z3.ForAll([c], z3.Implies(z3.And(0 <= c, c < j), z3.And(
+                    -1 <= z3.Select(K, c), z3.Select(K, c) < ln,
+                    z3.Implies(z3.Select(K, c) >= 0, z3.Select(arr, z3.Select(K, c)) <= c),
+                    z3.Implies(z3.Select(K, c) + 1 < ln, c < z3.Select(arr, z3.Select(K, c) + 1)),
+                    path.cons(d, c) == z3.And(z3.Select(K, c) >= 0, z3.Select(K, c) % 2 == 0)))),
+                s_none == (ln == 0), e_none == (ln == 0),
+                z3.Implies(ln > 0, z3.And(s_val == z3.Select(path.val[d], z3.Select(arr, 0)),
+                                          e_val == z3.Select(path.val[d], last_consumed(d, arr, ln, consuming, j)) + 1)),
+            ]
+        return z3.And(parts)
+
+    def ghost_init(env):
+        env["__K"] = [z3.K(I, z3.IntVal(-1)), z3.K(I, z3.IntVal(-1))]
+
+    def ghost_update(env, j):
+        env["__K"] = [z3.Store(env["__K"][d], j, gv_of(env, d)[1] - 1) for d in (0, 1)]
+
+    spec = dict(invariant=inv, modifies=["consuming", "starts", "ends", "gap_vectors", "__K"], bind_last=True,
+                ghost_init=ghost_init, ghost_update=ghost_update,
+                havoc={"consuming": lambda old: [z3.FreshConst(B, "consuming0"), z3.FreshConst(B, "consuming1")],
+                       "starts": lambda old: [OptV(z3.FreshConst(B, "s_none"), z3.FreshConst(I, "s_val")) for _ in (0, 1)],
+                       "ends": lambda old: [OptV(z3.FreshConst(B, "e_none"), z3.FreshConst(I, "e_val")) for _ in (0, 1)],
+                       "gap_vectors": lambda old: [SymSeq.fresh("gv0", I), SymSeq.fresh("gv1", I)],
+                       "__K": lambda old: [z3.FreshConst(z3.ArraySort(I, I), "K0"), z3.FreshConst(z3.ArraySort(I, I), "K1")]})
+    hooks = TBHooks(funcs, {(name, 0): spec})
+    eng = Engine(funcs, hooks, prune_logic=None, prune_ms=300)
+    final = {}
+
+    def entry(e):
+        e.state["current_function"] = name
+        r = e.call(name, dict(aligned_positions=path))
+        final["K"] = e.state.get("K_final")
+        return r
+    # the ghost map after the loop is needed by the postcondition: keep it in the path state
+    orig_loop = hooks.loop
+
+    def loop_and_keep(eng_, node_, env):
+        orig_loop(eng_, node_, env)
+        eng_.state["K_final"] = list(env["__K"])
+    hooks.loop = loop_and_keep
+    try:
+        paths = eng.run(entry, pre)
+    except Unsupported as ex:
+        chk.undecided.append(f"{fn}: UNSUPPORTED {ex}")
+        return
+    chk.function(FILE, name, "P")
+    chk.obligation(f"{fn}/cover", "cover", cover_thunk(pre), function=fn)
+    n_post = 0
+    for k, pth in enumerate(paths):
+        for j_, nm in enumerate(getattr(pth, "inline", [])):
+            kind = nm.split(":")[0]
+            chk.discharged_inline(f"{fn}/{nm}/path={k}.{j_}", kind if kind.startswith("inv") else "noexcept", function=fn)
+        for nm, pc, cond in pth.obligations:
+            kind = nm.split(":")[0]
+            chk.obligation(f"{fn}/{nm}/path={k}", kind if kind.startswith("inv") else "noexcept",
+                           smt_thunk(pc, cond, timeout=30, logic=None, instantiate=(2, [n])), function=fn,
+                           key=f"C18/{fn}/{nm.split('#')[0]}", replayer=_replay)
+        if pth.outcome == "raise":
+            chk.obligation(f"{fn}/noexcept/path={k}", "noexcept", smt_thunk(pth.pc, z3.BoolVal(False), 30, logic=None),
+                           function=fn, key=f"C18/{fn}/noexcept", replayer=_replay)
+        if pth.outcome != "return":
+            continue
+        n_post += 1
+        starts, ends, gvs, alen = pth.value
+        Kf = pth.state.get("K_final")
+        goals = [alen == n if is_sym(alen) else z3.BoolVal(False)]
+        for d in (0, 1):
+            sl = gvs[d]
+            if not isinstance(sl, SymList) or not isinstance(sl.elem, tuple) or len(sl.elem) != 2 or Kf is None:
+                goals.append(z3.BoolVal(False))
+                continue
+            s, e = sl.elem
+            m, jj = sl.count, sl.j
+            K = Kf[d]
+            s_none, s_val = _opt(starts[d])
+            e_none, e_val = _opt(ends[d])
+            # the element at another generic position (for order / separation): substitute the index variable
+            j2 = z3.Int("jj2")
+            s2 = z3.substitute(s, (jj, j2))
+            e2 = z3.substitute(e, (jj, j2))
+            side = z3.And(0 <= jj, jj < m, *sl.side)
+            side2 = z3.And(0 <= j2, j2 < m, *[z3.substitute(x, (jj, j2)) for x in sl.side])
+            seg_of_c = z3.Select(K, c)           # ghost witness: the consuming column c lies in segment K[c] / 2
+            # the segment list read at the witness position
+            jw = z3.Int("jjw")
+            sw = z3.substitute(s, (jj, jw))
+            ew = z3.substitute(e, (jj, jw))
+            sidew = [z3.substitute(x, (jj, jw)) for x in sl.side]
+            goals += [
+                m >= 0,
+                z3.Implies(side, z3.And(0 <= s, s < e, e <= n)),
+                z3.Implies(side, z3.ForAll([c], z3.Implies(z3.And(s <= c, c < e), path.cons(d, c)))),
+                z3.Implies(z3.And(side, side2, jj < j2), e < s2),
+                z3.Implies(z3.And(side, e < n), z3.Not(path.cons(d, e))),
+                z3.Implies(z3.And(side, s > 0), z3.Not(path.cons(d, s - 1))),
+                z3.ForAll([c], z3.Implies(z3.And(0 <= c, c < n, path.cons(d, c)),
+                                          z3.And(seg_of_c >= 0, seg_of_c % 2 == 0, seg_of_c / 2 < m))),
+                z3.Implies(z3.And(0 <= c, c < n, path.cons(d, c), jw == seg_of_c / 2, 0 <= jw, jw < m, *sidew),
+                           z3.And(sw <= c, c < ew)),
+                s_none == (m == 0), e_none == (m == 0),
+                z3.Implies(z3.And(side, jj == 0), s_val == z3.Select(path.val[d], s)),
+                z3.Implies(z3.And(side, jj == m - 1), e_val == z3.Select(path.val[d], e - 1) + 1),
+            ]
+        for gi, g in enumerate(goals):
+            chk.obligation(f"{fn}/post.segments-are-the-consuming-runs[{gi}]/path={k}", "post",
+                           smt_thunk(pth.pc, g, timeout=30, logic=None, instantiate=(2, [n])), function=fn,
+                           key=f"C18/{fn}/post", replayer=_replay)
+    if n_post == 0:
+        chk.error(f"{fn}: no returning path")
+
+
+def _replay(model):
+    """native: every path of length 1..5 over cells {(i,j), (i,None), (None,j)} with running positions"""
+    import itertools
+
+    from cogent3.align.traceback import gap_traceback
+    for L in range(1, 6):
+        for kinds in itertools.product("mxy", repeat=L):
+            p = [0, 0]
+            cells = []
+            for kd in kinds:
+                cell = [p[0] if kd in "mx" else None, p[1] if kd in "my" else None]
+                p[0] += kd in "mx"
+                p[1] += kd in "my"
+                cells.append(cell)
+            try:
+                starts, ends, gvs, alen = gap_traceback([list(x) for x in cells])
+            except Exception as ex:
+                return {"failed": True, "witness": cells,
+                        "description": f"gap_traceback({cells}) raises {type(ex).__name__}: {ex}"}
+            ok = alen == L
+            for d in (0, 1):
+                cons = [x[d] is not None for x in cells]
+                runs, c0 = [], None
+                for i, f in enumerate(cons + [False]):
+                    if f and c0 is None:
+                        c0 = i
+                    if not f and c0 is not None:
+                        runs.append((c0, i))
+                        c0 = None
+                vals = [x[d] for x in cells if x[d] is not None]
+                ok = ok and [tuple(g) for g in gvs[d]] == runs
+                ok = ok and (starts[d], ends[d]) == ((vals[0], vals[-1] + 1) if vals else (None, None))
+            if not ok:
+                return {"failed": True, "witness": cells,
+                        "description": f"gap_traceback({cells}) = ({starts}, {ends}, {gvs}, {alen})"}
+    return {"failed": False, "description": "all paths of length <= 5 agree with the run-length spec"}
 
 
 def run(chk):
-    chk.bounded("bounded.C18")
-    chk.level = "exploration"
-    chk.explanation = "bounded run-time contracts only (brute-force optimality on short sequences); nothing proved"
-    chk.assume("no deductive obligation: numba float DP kernels are outside the VC generator's subset")
+    import os
+    only = getattr(chk, "only", None)
+    if not only or "proof" in only:
+        chk.guard(run_gap_traceback)
+        chk.discharge()
+    chk.assume("proof tier covers gap_traceback only; IndelMap.from_aligned_segments, Aligned and the dynamic program "
+               "(numba float kernels, Viterbi optimality) are not decided by proof")
+    chk.assume("precondition of gap_traceback: the path has at least one cell (an empty path raises UnboundLocalError "
+               "in the code; no aligner produces one)")
+    if not only or "bounded" in only:
+        chk.bounded("bounded.C18")
+    chk.level = "other" if any(o.status == "discharged" for o in chk.obligations) else "exploration"
+    chk.explanation = ("gap layout of a dynamic-programming path (gap_traceback) proved for paths of every length by a "
+                       "quantified loop invariant with a ghost witness map (smt); optimality, score, Hirschberg "
+                       "independence and projection are bounded run-time contracts (brute force on short sequences)")
